@@ -3,6 +3,7 @@ CONSTANTS
   PageSeq <- TPageSeq
   CliPaths <- TCli
   KaPaths <- TKaPaths
+  ZoqFiles <- TZoq
   MaxSess = 1000
   MaxProc = 1000
 INVARIANT TypeOK
